@@ -247,8 +247,37 @@ def _default_cases():
                    int_opts=False, history=False, default_penalty=(d == 1), a="1", c="2", sub=11, wscale="1/4", use_defaults=True)
 
 
+def _layout_cases():
+    """Memory layout of every array argument (responses, weights, grids) in 1-D, 2-D and 3-D: the same numbers must give the
+    same fit.  Fortran order, transposed views, negative strides, non-contiguous slices, read-only arrays."""
+    rng = Rng("C05-layout-block")
+    k = 0
+    for d in (1, 2, 3):
+        for ylay in ("F", "T", "neg", "strided", "readonly"):
+            for wlay in ((None, "same") if d > 1 else ("same",)):
+                k += 1
+                dims = []
+                for j in range(d):
+                    p = rng.randint(1, 2)
+                    nseg = rng.randint(1, 2) if d > 1 else rng.randint(2, 4)
+                    m = [rng.randint(6, 10)] if d == 1 else ([4, 5, 3] if d == 3 else [5, 4])
+                    mm = m[j] if d > 1 else m[0]
+                    x = rng.grid(mm, lo=rng.choice([0, 1, -2]), scale=2)
+                    dims.append(dict(nseg=nseg, p=p, lam=rs(Fraction(rng.choice([1, 2, Fraction(1, 2)]))), x=[rs(v) for v in x], wide=False,
+                                     dmin=rs(x[0]), dmax=rs(x[-1])))
+                n = int(np.prod([len(dd["x"]) for dd in dims]))
+                w = None if wlay is None else [rng.choice([Fraction(1, 2), Fraction(1), Fraction(2), Fraction(0), Fraction(3, 2)]) for _ in range(n)]
+                if w is not None and not any(w):
+                    w[0] = Fraction(1)
+                yield dict(kind=f"fit{d}", d=d, ord=rng.randint(1, 2), dims=dims, y=[rs(v) for v in rng.dyadics(n, -4, 4, 2)],
+                           w=None if w is None else [rs(v) for v in w], wk="layout-" + ("real" if w else "none"), yk="rand", int_opts=False,
+                           history=False, default_penalty=False, a="2", c="-1", sub=6 * k + 2, wscale="1/4",
+                           layout=dict(y=ylay, w=(ylay if wlay == "same" else None), x=("neg" if k % 3 == 0 else "strided" if k % 3 == 1 else None)))
+
+
 def gen_cases(rng: Rng, tier):
     _TIER[0] = tier
+    yield from _layout_cases()
     yield from _dtype_cases()
     yield from _default_cases()
     n = dict(quick=136, thorough=1400)[tier]
@@ -331,12 +360,39 @@ def _cast(a, dt):
     return b if np.array_equal(b.astype(np.float64), a.astype(np.float64)) else a
 
 
+def _layout(a, kind):
+    """The same numbers in another memory layout: Fortran order, transposed view of a C array, negative stride, non-contiguous
+    slice of a larger array."""
+    if a is None or not kind or isinstance(a, list):
+        return a
+    a = np.asarray(a)
+    if kind == "F":
+        return np.asfortranarray(a)
+    if kind == "T":
+        return np.ascontiguousarray(a.T).T
+    if kind == "neg":
+        return np.ascontiguousarray(a[::-1])[::-1]
+    if kind == "strided":
+        b = np.full(a.shape[:-1] + (2 * a.shape[-1],), np.nan, dtype=a.dtype)
+        b[..., ::2] = a
+        return b[..., ::2]
+    if kind == "readonly":
+        b = a.copy()
+        b.setflags(write=False)
+        return b
+    raise ValueError(kind)
+
+
 def _fit(ps, case, y, xs, w):
     dims = case["dims"]
     dt = case.get("dtypes") or {}
     y = _cast(y, dt.get("y"))
     w = _cast(w, dt.get("w"))
     xs = [_cast(x, dt.get("x")) for x in xs]
+    lay = case.get("layout") or {}
+    y = _layout(y, lay.get("y"))
+    w = _layout(w, lay.get("w"))
+    xs = [_layout(x, lay.get("x")) for x in xs]
     kw = {}
     if any(dd["wide"] for dd in dims):
         kw["domain_min"] = [float(F(dd["dmin"])) for dd in dims]
@@ -544,7 +600,11 @@ def run_impl(case):
         # end points with the final one (uniform <-> warped), on other ranges / lengths — with other data, weights,
         # penalties, with and without the final options; every step is compared with a fresh object
         out["hist_bad"] = _history(ps, case, xs)
+    snap = (y.copy(), None if w is None else w.copy(), [x.copy() for x in xs])
     _fit(ps, case, y, xs, w)
+    if not (np.array_equal(y, snap[0]) and (w is None or np.array_equal(w, snap[1])) and all(np.array_equal(a, b) for a, b in zip(xs, snap[2]))):
+        out["inputs_changed"] = "fit modified the caller's responses / weights / grids in place"
+        y, w, xs = snap[0], snap[1], snap[2]
     out["shape_y"] = list(np.shape(ps.y_hat))
     out["shape_b"] = list(np.shape(ps.beta_hat))
     out["shape_h"] = list(np.shape(ps.diagnostics["hat_matrix"]))
@@ -866,6 +926,8 @@ def _oracle_predict(case, impl, vs, bad, y_hat, causes):
     e = np.abs(np.array(impl["pred_nodes"]) - np.array(impl["nodes_ref"])).max() / max(np.abs(y_hat).max(), 1e-300)
     if not e <= max(1e-10, _lowprec(case)):
         bad("predict_fit_grid", f"predict on a subset of the fitting grid differs from the fitted values there by {e:.3g}", ["query_subset"])
+    if impl.get("inputs_changed"):
+        bad("input_unchanged", impl["inputs_changed"], causes)
     # nothing shared between instances
     if impl.get("interleave_bad"):
         bad("interleaved_instances", impl["interleave_bad"], causes)
@@ -907,6 +969,8 @@ def classify(case, impl):
     tags.append("mode:" + ("exact" if M <= EXACT_MAX[_TIER[0]] else "residual"))
     if any(dd["wide"] for dd in case["dims"]):
         tags.append("explicit-domain")
+    if case.get("layout"):
+        tags.append("layout:y=" + str(case["layout"].get("y")) + ",x=" + str(case["layout"].get("x")))
     if case.get("use_defaults"):
         tags.append("options:all-defaults")
     if case.get("history"):
